@@ -69,3 +69,21 @@ Theorem C07_chunked_continuous_equals_gapped : forall c st g vec, c_chunk c = tr
   write_one (flip_cont c) st g vec = write_one c st g vec.
 Proof. exact chunked_continuous_equals_gapped. Qed.
 Print Assumptions C07_chunked_continuous_equals_gapped.
+
+(* ---- from the requested numpy type to the stored fill.  Gen/DtypeTable.v is the extension's
+   get_hdf5_data_type, regenerated from the source on every run (translator T4); Model/Dtype.v says
+   what the Python front end passes for a numpy type and what HDF5's predefined types mean.  For every
+   numpy component type the writer accepts, real or complex: the table picks an HDF5 type of the same
+   class, signedness, size and (beyond one byte) byte order, and the fill HDF5 stores for that type
+   decodes to the missing value -- NaN, most negative, zero -- of the REQUESTED type. *)
+From Coq Require Import String.
+From DRF Require Import Model.Dtype Gen.DtypeTable Proofs.DtypeProofs.
+
+Theorem C07_requested_type_fill_is_missing : forall k sz be cx,
+  In (k, sz) [(KI, 1); (KI, 2); (KI, 4); (KI, 8); (KU, 1); (KU, 2); (KU, 4); (KU, 8); (KF, 4); (KF, 8)] ->
+  exists name k' sz' be',
+    get_hdf5_data_type (byteorder_char (mkNp k sz be)) (kind_char (mkNp k sz be)) sz = Some name /\
+    h5_predef name = Some (k', sz', be') /\ k' = k /\ sz' = sz /\ (sz = 1 \/ be' = be) /\
+    cell_ok (mkCell k' sz' be' cx) = true.
+Proof. exact requested_type_fill_is_missing. Qed.
+Print Assumptions C07_requested_type_fill_is_missing.
